@@ -23,9 +23,24 @@ func (mergeOp) FullMerge(key, existing []byte, operands [][]byte) ([]byte, bool)
 	if mergeRefuseTask != nil && simrt.Cur() == mergeRefuseTask {
 		return nil, false
 	}
-	out := append([]byte{}, existing...)
+	// The "keep" operand ("=") leaves the value as it is: with only such
+	// operands the operator hands back the very slice it was given (as a max
+	// or put-if-absent operator would), otherwise a fresh one.
+	out, own := existing, false
 	for _, o := range operands {
+		if len(o) == 1 && o[0] == '=' {
+			if out == nil {
+				out, own = []byte{}, true
+			}
+			continue
+		}
+		if !own {
+			out, own = append([]byte{}, out...), true
+		}
 		out = MergeFold(out, o)
+	}
+	if out == nil {
+		out = []byte{}
 	}
 	return out, true
 }
